@@ -659,17 +659,23 @@ func (t *Collection) VisitItemsAscendEx(target []byte, withValue bool,
 	defer t.rootDecRef(rnl)
 	verifPoint("read.pinned")
 
-	var prevVisitItem *Item
+	// The previous key is kept as a copy, not through the previous item:
+	// the visit releases (evicts) an item once it has moved past it, and
+	// an application that recycles released items (see tools/slab) may
+	// have reused it by the time the next item is compared against it.
+	var prevKey []byte
+	havePrev := false
 	var errCheckedVisitor error
 
 	checkedVisitor := func(i *Item, depth uint64) bool {
-		if prevVisitItem != nil && t.compare(prevVisitItem.Key, i.Key) > 0 {
+		if havePrev && t.compare(prevKey, i.Key) > 0 {
 			errCheckedVisitor = fmt.Errorf("corrupted / out-of-order index"+
 				", key: %s vs %s, coll: %p, collName: %s, store: %p, storeFile: %v",
-				string(prevVisitItem.Key), string(i.Key), t, t.name, t.store, t.store.file)
+				string(prevKey), string(i.Key), t, t.name, t.store, t.store.file)
 			return false
 		}
-		prevVisitItem = i
+		prevKey = append(prevKey[:0], i.Key...)
+		havePrev = true
 		return visitor(i, depth)
 	}
 
